@@ -654,6 +654,7 @@ func parseRaceLog(lg string) []raceReport {
 		}
 		var tops []string
 		lib := false
+		allHarness := true
 		for _, st := range stacks {
 			head := st[0]
 			if !(strings.Contains(head, " at 0x") && strings.Contains(head, "by ")) {
@@ -689,9 +690,18 @@ func parseRaceLog(lg string) []raceReport {
 				break
 			}
 			tops = append(tops, top)
+			if !harness {
+				// a library frame, or a stack the detector could not restore
+				allHarness = false
+			}
 			if !harness && strings.Contains(top, "github.com/goccy/go-json") {
 				lib = true
 			}
+		}
+		if len(tops) == 0 || !allHarness {
+			// only a report whose every access is provably harness code is a
+			// harness problem; anything else is charged to the library
+			lib = true
 		}
 		sort.Strings(tops)
 		key := strings.Join(tops, "|")
